@@ -127,7 +127,19 @@ const METHODS: &[&str] = &["GET", "POST", "PUT", "DELETE"];
 const HEADER_NAMES: &[&str] = &["X-A", "x-b", "Accept-Language"];
 const HEADER_VALUES: &[&str] = &["fr", "en-US", "abc", "x1", "Bearer tok", "fr-FR,fr"];
 const PATH_LITS: &[&str] = &["/", "/a", "/a/b", "/A", "/blog", "/blog/post-1", "/shop", "/u/42", "/u/42/p/x", "/é"];
-const PATH_TPLS: &[&str] = &["/blog/@slug", "/blog/@slug/comments", "/u/@id", "/u/@id/p/@slug", "/@any", "/shop/@slug.html", "/é/@id"];
+const PATH_TPLS: &[&str] = &[
+    "/blog/@slug",
+    "/blog/@slug/comments",
+    "/u/@id",
+    "/u/@id/p/@slug",
+    "/@any",
+    "/shop/@slug.html",
+    "/é/@id",
+    // marker names that are prefixes of one another (longer names must be substituted first)
+    "/c/@lang/@language",
+    "/i/@id/@idx",
+    "/smile:)/@slug",
+];
 const QUERIES: &[&str] = &["x=1", "a=1&b=2", "q=test"];
 
 fn fmt_dt(t: i64) -> String {
@@ -314,6 +326,13 @@ impl RuleGen {
             if t.contains("@slug") {
                 markers.push(json!({"name": "slug", "regex": "(?:[a-z]|\\-)+?"}));
             }
+            if t.contains("@language") {
+                markers.push(json!({"name": "language", "regex": "[a-z]{3,}"}));
+                markers.push(json!({"name": "lang", "regex": "[a-z]{2}"}));
+            }
+            if t.contains("@idx") {
+                markers.push(json!({"name": "idx", "regex": "[a-f]+"}));
+            }
             if t.contains("@id") {
                 markers.push(json!({"name": "id", "regex": "[0-9]+"}));
             }
@@ -424,6 +443,16 @@ pub fn id_pool(rng: &mut Rng, n: usize) -> Vec<String> {
 
 fn instantiate_path(rng: &mut Rng, t: &str) -> String {
     let mut p = t.to_string();
+    // longer names first
+    if p.contains("@language") {
+        p = p.replace("@language", &rng.pick_str(&["french", "eng", "deutsch", "fr"]));
+    }
+    if p.contains("@lang") {
+        p = p.replace("@lang", &rng.pick_str(&["fr", "en", "fra"]));
+    }
+    if p.contains("@idx") {
+        p = p.replace("@idx", &rng.pick_str(&["abc", "f", "g1"]));
+    }
     if p.contains("@slug") {
         p = p.replace("@slug", &rng.pick_str(&["hello", "a-b", "x", "Hello"]));
     }
